@@ -62,7 +62,9 @@ def cases(draw, tier):
                        "growth_factor": draw(K.growth_strategy)},
             "X": None, "scale2": draw(st.floats(1.0, 3.0)),
             # the detector may have been fitted on other data (other length): detections are relative to threshold_
-            "n_train": draw(st.sampled_from([None, None, "shorter", "longer", "same_buffer"]))}
+            "n_train": draw(st.sampled_from([None, None, "shorter", "longer", "same_buffer"])),
+            # the detector / its scorer may have a past: an earlier predict on the same buffer, an earlier fit on wider data
+            "history": draw(st.sampled_from(K.HISTORIES))}
     if bulk == "table":
         m = (n + 1) ** 3
         flat = draw(st.lists(st.integers(-1, 4), min_size=m, max_size=m))
@@ -100,10 +102,16 @@ def check(case):
         # the caller keeps one preallocated buffer: fitted with the training contents, then refilled in place
         Xtrain = Xtrain.copy()
         Xpred = Xtrain
+    history = case.get("history") if case.get("n_train") != "same_buffer" else None
     with sut("SeededBinarySegmentation.fit/predict"):
-        det = K.build(K.detector_spec("SeededBinarySegmentation", params)).fit(Xtrain)
+        det = K.build(K.detector_spec("SeededBinarySegmentation", params))
+        if history == "scorer_prefit_wide" and not K.prefit_scorer_wide(det, Xtrain):
+            history = None
+        det.fit(Xtrain)
         if Xpred is Xtrain:
             Xtrain[:] = X
+        if history in ("used_buffer_array", "used_buffer_frame"):
+            Xpred = K.used_buffer(det, X, history.endswith("frame"))
         y = det.predict(Xpred)
         table = det.scores
         thr = float(det.threshold_)
@@ -181,6 +189,8 @@ def check(case):
         classes.append("fitted_on_other_length")
     if case.get("n_train") == "same_buffer":
         classes.append("buffer_refilled_after_fit")
+    if history:
+        classes.append(f"history={history}")
     if mil == 2 * msl:
         classes.append("mil=2msl")
     if n == 2 * msl:
